@@ -1148,10 +1148,11 @@ class Interp:
         return norm_cmp(sym, a, b)
 
     def ev_BinOp(self, node, st):
-        for (a, b), s in self.ev_seq([node.left, node.right], st):
+        for ab, s in self.ev_seq([node.left, node.right], st):
             if s.raised:
                 yield None, s
                 continue
+            a, b = ab
             yield from self.binop(node.op, a, b, s, node)
 
     def binop(self, op, a, b, s, node=None):
